@@ -595,9 +595,9 @@ func identityOracle(texts []string, calls []callRes) *Violation {
 		case lineOf(calls[i].retMap) == texts[i] && classifyTags(calls[i].retMap) != "":
 			// the raw-text fast path: the text equals the stored line of a set whose line does not denote it (C08)
 			cls = "identity-fastpath-line-of-other-set"
-		case calls[i].denoted != nil && lineOf(calls[i].denoted) == lineOf(calls[i].retMap) &&
-			(classifyTags(calls[i].denoted) != "" || classifyTags(calls[i].retMap) != ""):
-			// two different sets are printed as the same line (C08: printing is not injective)
+		case calls[i].denoted != nil && lineOf(calls[i].denoted) == lineOf(calls[i].retMap):
+			// two different sets are printed as the same line (printing is not injective): cannot happen with the
+			// line() of the code, which quotes the value of two quote characters (a regression of the C08 repair)
 			cls = "identity-line-collision"
 		}
 		return &Violation{Class: cls, Detail: fmt.Sprintf("text %s denotes %s but is answered with the partition of %s", show(texts[i]), den, show(mapKey(calls[i].retMap)))}
@@ -637,25 +637,26 @@ func scanBalanced(v string) bool {
 	return !in
 }
 
+// classifyTags: does the line the code prints for the map fail to denote it?  With valueNeedsQuote of the code a
+// value is printed raw only if it is non-empty, has no '=' ',' no blank at an end, no leading quote character and
+// (last pair) no trailing '}'; such a value is unsafe iff its double quotes do not balance (pinned by TestTagLine).
+// Names are printed as they are: a first name starting with '{'.
 func classifyTags(m map[string]string) string {
 	ks := sortedKeys(m)
-	for _, k := range ks {
+	for i, k := range ks {
 		v := m[k]
 		if v == "" || strings.ContainsAny(v, "=,") {
 			continue
 		}
-		if v[0] == '"' || v[0] == '`' || !scanBalanced(v) || v[0] == ' ' || v[len(v)-1] == ' ' {
+		if v[0] == '"' || v[0] == '`' || v[0] == ' ' || v[len(v)-1] == ' ' || (i == len(ks)-1 && v[len(v)-1] == '}') {
+			continue
+		}
+		if !scanBalanced(v) {
 			return "unsafe-value"
 		}
 	}
-	if len(ks) > 0 {
-		last := m[ks[len(ks)-1]]
-		if last != "" && !strings.ContainsAny(last, "=,") && last[len(last)-1] == '}' {
-			return "unsafe-last-brace"
-		}
-		if ks[0][0] == '{' {
-			return "unsafe-first-brace"
-		}
+	if len(ks) > 0 && ks[0][0] == '{' {
+		return "unsafe-first-brace"
 	}
 	return ""
 }
@@ -1140,10 +1141,17 @@ func bs(ss ...string) [][]byte {
 // corpus: the witnesses of the _refuted theorems replayed on the real code
 func corpus() []Replay {
 	return []Replay{
-		// the line of {a: "x" with quotes} is a="x"; that text denotes {a: x}; a=x denotes the same set but gets a new partition
+		// the witness of C06_identity_refuted: the line of {a: x"y, b: z"w} is printed raw (TestTagLine) and is a text that
+		// denotes {a: x"y,b=z"w}; that text is answered with the first partition, another spelling of its set gets a new one
+		{Kind: "hist", Texts: bs(`a="x\"y",b="z\"w"`, `a=x"y,b=z"w`, `a="x\"y,b=z\"w"`), Sources: []string{"", "{a=x}"}},
+		// one such value: the stored line is a text the parser rejects; the fast path answers it all the same
+		{Kind: "hist", Texts: bs(`a="x\"y"`, `a=x"y`), Sources: []string{""}},
+		// the witnesses of the repaired C08 classes: the line of {a: "x" with quotes} was a="x", a text that denotes {a: x};
+		// the empty value and the value of two quote characters shared the line a="" and hence a partition.
+		// With the line() of the code: three sets, three partitions / two sets, two partitions
 		{Kind: "hist", Texts: bs(`a="\"x\""`, `a="x"`, `a=x`), Sources: []string{"", "{a=x}", "a=x"}},
-		// the empty value and the value of two quote characters share a line, hence a partition
 		{Kind: "hist", Texts: bs(`a=""`, `a="\"\""`), Sources: []string{""}},
+		{Kind: "hist", Texts: bs(`a=" x"`, `a=x`, `a="x}"`, `{a=x}}`, `a="x "`), Sources: []string{"", "{a=x}"}},
 		{Kind: "hist", Texts: bs(`name=app1,ip=1`, `{ ip = "1" , name=app1 }`, `ip=1,name=app1`, `ip=2,name=app1`, `name=app1`),
 			Sources: []string{"{name=app1}", "{name=app1,ip=2}", "name=app1 AND NOT ip=1", "ip like \"[\"", "name=app1 and ip like \"[\"", "upper(name) = APP1", ""}},
 		{Kind: "eval", Sources: []string{`name = a AND ip like "["`}, Sets: bs(`name=a,ip=1`, `name=b`)},
